@@ -3,7 +3,7 @@
 # Regression sweep of the seeded changes: every /verif/seeded/<id>/patch.diff is applied to a scratch
 # worktree of /repo (never to /repo itself), the checks named in meta.json "caught_by" are run against it
 # (ORQUESTA_REPO), and the outcome is printed as  "<id> <check> caught|MISSED|error".  The worktrees are
-# removed at the end; evidence/ files rewritten by these runs are restored from git.
+# removed at the end; their evidence goes to a scratch directory.
 LANES=${1:-4}; GLOB=${2:-*}
 BASE=${TMPDIR:-/tmp}/verif_sweep_$$
 mkdir -p $BASE
@@ -18,7 +18,7 @@ lane() {
     checks=$(/venv/bin/python -c "import json;print(' '.join(json.load(open('$sd/meta.json')).get('caught_by',[])))" 2>/dev/null)
     if ! git -C $wt apply $sd/patch.diff 2>/dev/null; then echo "$sid - error(patch does not apply)"; git -C $wt checkout -q -- .; continue; fi
     for c in $checks; do
-      out=$(cd /verif && ORQUESTA_REPO=$wt ./check $c --tier quick 2>&1)
+      out=$(cd /verif && VERIF_EVIDENCE_DIR=$BASE/evidence ORQUESTA_REPO=$wt ./check $c --tier quick 2>&1)
       if echo "$out" | grep -q "^VIOLATION property=$c"; then echo "$sid $c caught ($(echo "$out" | grep "^VIOLATION" | head -1 | sed 's/.*clause=//'))"
       elif echo "$out" | grep -q "MACHINERY"; then echo "$sid $c error(machinery)"
       else echo "$sid $c MISSED"; fi
@@ -32,4 +32,3 @@ cat $BASE/lane*.out | sort
 for i in $(seq 1 $LANES); do git -C /repo worktree remove --force $BASE/w$i; done
 git -C /repo worktree prune
 rm -rf $BASE
-git -C /verif checkout -q -- evidence 2>/dev/null
